@@ -87,7 +87,8 @@ def evaluate(
     stdout as a str.
   """
   # Set up the permission and context.
-  permission = permission or permissions.get_permission()
+  if permission is None:
+    permission = permissions.get_permission()
   ctx = dict(get_context())
   if global_vars:
     ctx.update(global_vars)
